@@ -689,6 +689,8 @@ VmTrap vm_core_execute(VmState *vm) {
         case OP_MOD: {
             NanoValue b = stack_pop(vm);
             NanoValue a = stack_pop(vm);
+            if (a.tag == TAG_ENUM) { a = val_int((int64_t)a.as.enum_val); }
+            if (b.tag == TAG_ENUM) { b = val_int((int64_t)b.as.enum_val); }
             if (a.tag == TAG_INT && b.tag == TAG_INT) {
                 stack_push(vm, val_int(vm_i64_mod(a.as.i64, b.as.i64)));
             } else {
@@ -699,6 +701,7 @@ VmTrap vm_core_execute(VmState *vm) {
 
         case OP_NEG: {
             NanoValue a = stack_pop(vm);
+            if (a.tag == TAG_ENUM) { a = val_int((int64_t)a.as.enum_val); }
             if (a.tag == TAG_INT) {
                 stack_push(vm, val_int(-a.as.i64));
             } else if (a.tag == TAG_FLOAT) {
@@ -1178,7 +1181,7 @@ VmTrap vm_core_execute(VmState *vm) {
                 return trap_error(vm, VM_ERR_TYPE_ERROR, "ARR_GET: not an array");
             }
             /* Range-check the 64-bit index before narrowing it (docs/ARRAY_SAFETY.md). */
-            int64_t idx64 = (idx_v.tag == TAG_INT ? idx_v.as.i64 : 0);
+            int64_t idx64 = (idx_v.tag == TAG_INT ? idx_v.as.i64 : idx_v.tag == TAG_ENUM ? (int64_t)idx_v.as.enum_val : 0);
             if (idx64 < 0 || idx64 >= (int64_t)arr.as.array->length) {
                 uint32_t alen = arr.as.array->length;
                 vm_release(&vm->heap, arr);
@@ -1202,7 +1205,7 @@ VmTrap vm_core_execute(VmState *vm) {
                 vm_release(&vm->heap, v);
                 return trap_error(vm, VM_ERR_TYPE_ERROR, "ARR_SET: not an array");
             }
-            int64_t idx64 = (idx_v.tag == TAG_INT ? idx_v.as.i64 : 0);
+            int64_t idx64 = (idx_v.tag == TAG_INT ? idx_v.as.i64 : idx_v.tag == TAG_ENUM ? (int64_t)idx_v.as.enum_val : 0);
             if (idx64 < 0 || idx64 >= (int64_t)arr.as.array->length) {
                 uint32_t alen = arr.as.array->length;
                 vm_release(&vm->heap, arr);
@@ -1252,7 +1255,7 @@ VmTrap vm_core_execute(VmState *vm) {
                 vm_release(&vm->heap, arr);
                 return trap_error(vm, VM_ERR_TYPE_ERROR, "ARR_REMOVE: not an array");
             }
-            int64_t idx64 = (idx_v.tag == TAG_INT ? idx_v.as.i64 : 0);
+            int64_t idx64 = (idx_v.tag == TAG_INT ? idx_v.as.i64 : idx_v.tag == TAG_ENUM ? (int64_t)idx_v.as.enum_val : 0);
             if (idx64 < 0 || idx64 >= (int64_t)arr.as.array->length) {
                 uint32_t alen = arr.as.array->length;
                 vm_release(&vm->heap, arr);
